@@ -17,7 +17,7 @@ SetLits == {Set({IntV(1), IntV(2)}), Set({IntV(2), IntV(3)}), Set({IntV(7)}), Se
 Lits == IntLits \cup StrLits \cup ListLits \cup SetLits \cup {Bool(TRUE), Bool(FALSE)}
 
 AllOps == {"add", "sub", "mul", "div", "mod", "lt", "le", "gt", "ge", "eq", "ne", "cat", "and", "neg", "ite",
-        "lcat", "union", "count", "in", "notin", "where", "tform", "tconst", "tset", "lit", "mkmap", "attr", "mapt"}
+        "lcat", "union", "count", "in", "notin", "where", "tform", "tconst", "tset", "lit", "mkmap", "attr", "mapt", "call"}
 Ops == IF Focus = "concat" THEN {"lit", "lcat", "union"} ELSE IF Focus = "collections" THEN {"lit", "lcat", "union", "count", "where", "tform", "tconst", "tset", "mkmap", "attr", "mapt"} ELSE AllOps
 Arity(op) == IF op \in {"neg", "count", "lit", "attr"} THEN 1 ELSE IF op \in {"ite", "mkmap"} THEN 3 ELSE 2
 
@@ -41,6 +41,7 @@ Sigs(op) ==
     [] op \in {"tform", "tconst", "tset"} -> {<<"list:int", "int">>, <<"set:int", "int">>}
     [] op = "mkmap" -> {<<"int", "int", "int">>}
     [] op = "attr" -> {<<"map">>}
+    [] op = "call" -> {<<"int", "int">>}
     [] op = "mapt" -> {<<"map", "int">>}
     [] op = "lit" -> IF Focus = "concat" THEN {<<"list:int">>, <<"set:int">>}
                      ELSE {<<"int">>, <<"str">>, <<"bool">>, <<"list:int">>, <<"list:str">>, <<"set:int">>, <<"set:str">>}
